@@ -47,6 +47,7 @@ BOUNDS = {
     "quick": {"crash_at": "every mutating FS operation (mkdir / create-truncate / write / unlink / symlink / rename) of the scenario, as one symbolic int", "torn": "prefix of 0,1,2,3 or len-1 bytes", "payload": "symbolic ASCII str <= 2 chars per kept function", "scenarios": ["S1", "S2", "S3 (crash points of the path-commit phase)"]},
     "thorough": {"crash_at": "as quick, one crash point per query; S3 over the whole run (quick: over its path-commit phase)", "torn": "as quick", "payload": "symbolic str <= 1 char of any code point (multi-byte encodings: a torn write can end inside a character)", "scenarios": ["S1", "S2", "S3"]},
 }
+BUDGET_S = {"thorough": 1500}  # wall budget of the thorough tier: queries not started by then are reported as not run
 LAST_DETAIL = [""]
 INT_DIR, DATA_DIR = "/s/x/int", "/s/y/data"
 
